@@ -122,8 +122,21 @@ def make_case(rng, idx):
     crlf = rng.random() < 0.25
     nonl = rng.random() < 0.3
     files, facts = {}, {}
-    kind = idx % 6
-    if kind == 5:  # multi-line constructs: decorated / multi-line headers, multi-line calls
+    kind = idx % 7
+    if kind == 6:  # duplicate constants across files, single- and multi-declarator, multi-line declarations
+        names = ["RETRY_MS_%d" % idx, "ALPHA_LIMIT_%d" % idx, "POOL_WIDTH_%d" % idx, "BATCH_SIZE_%d" % idx]
+        vals = [rng.randint(11, 999) for _ in names]
+        ts_a = "const %s = %d,\n  %s = %d,\n  %s = %d;\nexport const\n  %s = %d;\n" % (names[2], vals[2], names[0], vals[0], names[1], vals[1], names[3], vals[3])
+        ts_b = "".join("export const %s = %d;\n" % (n, v) for n, v in zip(names, vals))
+        py_a = "%s = %d\n\n%s = (\n    %d\n)\n%s = %d\n" % (names[0], vals[0], names[1], vals[1], names[3], vals[3])
+        py_b = "".join("%s = %d\n" % (n, v) for n, v in zip(names[:2], vals))
+        for fname, text, cm in (("pkg/k%d_a.ts" % idx, ts_a, "//"), ("pkg/k%d_b.ts" % idx, ts_b, "//"), ("pkg/k%d_a.py" % idx, py_a, "#"), ("pkg/k%d_b.py" % idx, py_b, "#")):
+            text, shift = relayout(text, None, lead if lead < 100 else 3, crlf, nonl, cm)
+            files[fname] = text
+            facts[fname] = {"kind": "constants"}
+        files[".thailint.yaml"] = "dry:\n  enabled: true\n  detect_duplicate_constants: true\n  min_duplicate_lines: 50\n"
+        cmds = [["dry"]]
+    elif kind == 5:  # multi-line constructs: decorated / multi-line headers, multi-line calls
         py = MULTI_PY.replace("NAME", "m%d" % idx)
         rs = MULTI_RS.replace("NAME", "m%d" % idx)
         py, sh1 = relayout(py, None, lead, crlf, nonl, "#")
@@ -236,7 +249,7 @@ def run(ctx):
             for fail in c.get("failures", [])[:3]:
                 ctx.discrepancy("contract:%s:%s" % (fail[0], str(fail[1]).split(".")[0]), "case %d `%s`: Orchestrator.lint_file postcondition: %r" % (case["idx"], cmd, fail), rep, files)
             if res["v"]:
-                ctx.nontrivial([case["idx"] % 6, sorted(case["layout"].items()), cmd])
+                ctx.nontrivial([case["idx"] % 7, sorted(case["layout"].items()), cmd])
             for v in res["v"]:
                 ctx.count("violations_checked")
                 fp, line, col, msg, rule = v["file_path"], v["line"], v["column"], v["message"], v["rule_id"]
@@ -320,6 +333,11 @@ def run(ctx):
                     if quoted and quoted not in text:
                         ctx.discrepancy("quoted-text-not-on-line:performance", where, rep, files)
                     ctx.count("construct_checked:performance")
+                elif fam == "dry" and msg.startswith("Duplicate constant"):
+                    m = re.match(r"Duplicate constant '([^']+)'", msg)
+                    if m and not re.search(r"\b%s\b" % re.escape(m.group(1)), text):
+                        ctx.discrepancy("name-not-on-line:dry-constant", where, rep, files)
+                    ctx.count("construct_checked:dry-constant")
                 elif fam == "dry":
                     cm = "#" if fp.endswith(".py") else "//"
                     code = text.split(cm)[0].strip()
